@@ -231,6 +231,7 @@ def mutation():
         st.tuples(st.just('sub'), pos, byte),
         st.tuples(st.just('del'), pos, st.integers(1, 3)),
         st.tuples(st.just('ins'), pos, st.binary(min_size=1, max_size=4).map(lambda b: b.hex())),
+        st.tuples(st.just('ins'), pos, st.lists(st.sampled_from(MUT_BYTES + [0x09, 0x0B, 0x0C]), min_size=1, max_size=2).map(lambda l: bytes(l).hex())),
         st.tuples(st.just('trunc'), pos),
         st.tuples(st.just('ext'), st.binary(min_size=1, max_size=6).map(lambda b: b.hex())),
         st.tuples(st.just('burst'), pos, st.integers(1, 0xFFFF)),
